@@ -5507,7 +5507,7 @@ class Symbol:
                     # int()/float() also accept surrounding blanks, "_" digit separators and (hex) a sign; such
                     # spellings would be written verbatim to sdkconfig and the C header
                     (self.orig_type == INT and _is_base_n(value, 10) and _is_plain_number(value))  # valid int
-                    or (self.orig_type == STRING and "\n" not in value)  # valid string (one sdkconfig line)
+                    or (self.orig_type == STRING and "\n" not in value and "\r" not in value)  # valid string (one sdkconfig line)
                     or (
                         self.orig_type == HEX
                         and _is_base_n(value, 16)
